@@ -230,3 +230,29 @@ Theorem rebind_sealed_owner_refuses : forall q sc st tp path rv tgt app cid ck c
 Proof.
   intros. unfold rebind_one. destruct path; [congruence|]. rewrite H0, H1, H2, H3. reflexivity.
 Qed.
+
+(* --- rebind does not look at the accessor flag (neither the object's nor the scope's) ---------------------------------------- *)
+Definition same_but_accessors (sc sc' : scope) : Prop :=
+  sc_sealed sc' = sc_sealed sc /\ sc_notify sc' = sc_notify sc /\ sc_partial sc' = sc_partial sc.
+Lemma rebind_one_ignores_accessors : forall q a b b' c d st tp path rv,
+  rebind_one q (mkScope a b' c d) st tp path rv = rebind_one q (mkScope a b c d) st tp path rv.
+Proof. reflexivity. Qed.
+Lemma rebind_loop_ignores_accessors : forall q a b b' c d pvs st tp upd,
+  rebind_loop q (mkScope a b' c d) st tp pvs upd = rebind_loop q (mkScope a b c d) st tp pvs upd.
+Proof.
+  induction pvs as [|[p rv] r]; simpl; intros; auto.
+  rewrite (rebind_one_ignores_accessors q a b b' c d).
+  destruct (rebind_one q (mkScope a b c d) st tp p rv) as [[st1 p1] c1].
+  destruct p1; auto; destruct c1; auto.
+Qed.
+Lemma rebind_core_ignores_accessors : forall q a b b' c d st tp tk pvs nt,
+  rebind_core q (mkScope a b' c d) st tp tk pvs nt = rebind_core q (mkScope a b c d) st tp tk pvs nt.
+Proof. intros. unfold rebind_core. rewrite (rebind_loop_ignores_accessors q a b b' c d). reflexivity. Qed.
+Theorem rebind_ignores_accessors : forall q sc sc' st ps tid tk tpth tfl tfl' its pvs,
+  same_but_accessors sc sc' -> f_sealed tfl' = f_sealed tfl ->
+  exec q sc' st ps tid tk tpth tfl' its (Rebind pvs) = exec q sc st ps tid tk tpth tfl its (Rebind pvs).
+Proof.
+  intros q [a b c d] [a' b' c' d'] st ps tid tk tpth tfl tfl' its pvs (E1 & E2 & E3) EF. simpl in *. subst.
+  unfold treats_as_sealed, sealed_scope. simpl. rewrite EF. destruct pvs; auto.
+  rewrite (rebind_core_ignores_accessors q a b b' c d). reflexivity.
+Qed.
